@@ -624,6 +624,53 @@ theorem pickNode_node (known : List KNode) (p : MPeer) : (pickNode known p).node
     · rfl
   · rfl
 
+/-- `pickArm` names the arm `pickNode` takes: `reused` = the previous object unchanged, `inherited` = a new object
+with the old one's identity and placement at the new address (only for accepted, enabled nodes whose address
+changed), `fresh` = built from the peer alone.  (The differential run observes the arm per node: `Arc::ptr_eq`,
+inherited settings.) -/
+theorem pickArm_sound (known : List KNode) (p : MPeer) :
+    match pickArm known p with
+    | .reused => ∃ k, lookupKnown known p.node.id = some k ∧ pickNode known p = k ∧ k.addr = p.addr ∧
+        k.enabled = p.accepted
+    | .inherited => ∃ k, lookupKnown known p.node.id = some k ∧ p.accepted = true ∧ k.enabled = true ∧ k.addr ≠ p.addr ∧
+        pickNode known p = ⟨⟨k.node.id, k.node.dc, k.node.rack⟩, p.addr, true⟩
+    | .fresh => pickNode known p = ⟨p.node, p.addr, p.accepted⟩ := by
+  cases ha : p.accepted with
+  | false =>
+    cases hl : lookupKnown known p.node.id with
+    | none => simp [pickArm, pickNode, ha, hl]
+    | some k =>
+      by_cases hc : (!k.enabled && decide (k.node.dc = p.node.dc) && decide (k.node.rack = p.node.rack) &&
+          decide (k.addr = p.addr)) = true
+      · have h1 : pickArm known p = .reused := by simp only [pickArm, ha, hl, hc, if_true]
+        have h2 : pickNode known p = k := by simp only [pickNode, ha, hl, hc, if_true]
+        rw [h1]
+        simp only [Bool.and_eq_true, decide_eq_true_eq, Bool.not_eq_true'] at hc
+        exact ⟨k, rfl, h2, hc.2, hc.1.1.1⟩
+      · have h1 : pickArm known p = .fresh := by simp only [pickArm, ha, hl, hc]; rfl
+        have h2 : pickNode known p = ⟨p.node, p.addr, false⟩ := by simp only [pickNode, ha, hl, hc]; rfl
+        rw [h1]; exact h2
+  | true =>
+    cases hl : lookupKnown known p.node.id with
+    | none => simp [pickArm, pickNode, ha, hl]
+    | some k =>
+      by_cases hc : (k.enabled && decide (k.node.dc = p.node.dc) && decide (k.node.rack = p.node.rack)) = true
+      · by_cases haddr : k.addr = p.addr
+        · have h1 : pickArm known p = .reused := by simp only [pickArm, ha, hl, hc, haddr, if_true]
+          have h2 : pickNode known p = k := by simp only [pickNode, ha, hl, hc, haddr, if_true]
+          rw [h1]
+          simp only [Bool.and_eq_true, decide_eq_true_eq] at hc
+          exact ⟨k, rfl, h2, haddr, hc.1.1⟩
+        · have h1 : pickArm known p = .inherited := by simp only [pickArm, ha, hl, hc, haddr, if_true, if_false]
+          have h2 : pickNode known p = ⟨⟨k.node.id, k.node.dc, k.node.rack⟩, p.addr, true⟩ := by
+            simp only [pickNode, ha, hl, hc, haddr, if_true, if_false]
+          rw [h1]
+          simp only [Bool.and_eq_true, decide_eq_true_eq] at hc
+          exact ⟨k, rfl, rfl, hc.1.1, haddr, h2⟩
+      · have h1 : pickArm known p = .fresh := by simp only [pickArm, ha, hl, hc]; rfl
+        have h2 : pickNode known p = ⟨p.node, p.addr, true⟩ := by simp only [pickNode, ha, hl, hc]; rfl
+        rw [h1]; exact h2
+
 /-- The ring entries after a refresh are those of the new metadata alone. -/
 theorem newTopology_entries (known : List KNode) (peers : List MPeer) :
     (newTopology known peers).2 = (toTopology peers).entries := by
